@@ -14,13 +14,16 @@ from common import rq, enc_list, close
 REQUIRED = ['sum_mult_eq_replicate', 'sumIf_replicate', 'score_replicate', 'cellfit_replicate', 'saturated_fits_agree',
             'std_replicate', 'hajek_replicate', 'iptw_replicate', 'stoch_iptw_replicate', 'gformula_replicate',
             'gformula_replicate_targets', 'gtransport_replicate', 'aipw_replicate', 'aipw_missing_replicate',
-            'snm_replicate', 'survival_replicate',
+            'snm_replicate', 'survival_replicate', 'survival_replicate_rows',
             # ties to the source: Props/C09_Snm.lean, Props/C09_Transport.lean
             'snm_generated', 'snm_generated_replicate', 'gtransport_fit_generated_replicate']
 RULE = ('random data sets (1-3 categorical covariates, <= 8 strata, positivity by construction; outcome binary / normal '
         '/ count; outcomes complete, missing completely at random, or missing depending on A and L) with an integer '
         'weights column drawn from 1..4 (int or float dtype); every estimator is run with weights=<column> and, '
-        'unweighted, on df.loc[df.index.repeat(df.w)] (persons replicated under fresh ids for SurvivalGFormula); '
+        'unweighted, on df.loc[df.index.repeat(df.w)] (persons replicated under fresh ids for SurvivalGFormula, whose '
+        'per-row weights are constant within a person or drop during follow-up, half of the data sets each); one cell in '
+        'three has the weights variable also as a covariate of every nuisance model (the replicated frame keeps it as an '
+        'ordinary column); '
         'configuration cells enumerated: IPTW stabilized x standardize x {no missing, missing ignored, missing_model} '
         'x {saturated, main-effects} models, plus a stabilized effect-modifier MSM (normal outcome); StochasticIPTW marginal/conditional plans; TimeFixedGFormula standardize x '
         "treatment ('all','none',custom) x predict_missing x outcome type; SurvivalGFormula all/none/natural/custom; "
@@ -36,8 +39,10 @@ ASSUMPTIONS = ['statsmodels GLM with freq_weights and the unweighted GLM on the 
                'set on reference fits made by the harness: fitted values agree row-for-row to 1e-9; gate H)',
                'statsmodels GEE (independence, weights) returns for the saturated MSM Y ~ A the weighted arm means / '
                'their log ratio / log odds ratio',
-               'SurvivalGFormula: the weights column is constant within an individual (person-level frequency weights); '
-               'replication repeats individuals under fresh ids',
+               'SurvivalGFormula: the per-row weights never rise within an individual (constant, or dropping during '
+               'follow-up), so that the k-th copies of the rows form an individual followed without gaps from his first '
+               'row (theorem survival_replicate_rows states this hypothesis; a rising weight has no replicated '
+               'counterpart: the extra copies would enter late); replication gives the copies fresh ids',
                'TimeFixedGFormula.fit_stochastic is run with deterministic plans only (probabilities exactly 1 / 0, also '
                'conditional [1, 0]): with 0 < p < 1 it draws the treated with probability proportional to the weights, '
                'which is not a frequency-weight semantics and has no replicated-data counterpart',
@@ -63,9 +68,11 @@ def make_data(seed, ytype, missing):
 
 
 def replicate(df, wcol='w'):
-    """(replicated frame without the weights column, position of the first copy of each original row)"""
+    """(replicated frame, position of the first copy of each original row).  The column `wcol` stays in the frame as an
+    ordinary variable (each copy carries the value of its original): the runners hand it to the estimator only when
+    the cell uses it as a model covariate (`wcov`), and never as `weights=`"""
     k = df[wcol].astype(int).values
-    rep = df.loc[df.index.repeat(k)].drop(columns=[wcol]).reset_index(drop=True)
+    rep = df.loc[df.index.repeat(k)].reset_index(drop=True)
     first = np.r_[0, np.cumsum(k)[:-1]]
     return rep, first
 
@@ -89,7 +96,12 @@ def make_transport(seed, ytype, missing):
     return out, covs
 
 
-def make_survival(seed):
+def make_survival(seed, wmode='person'):
+    """long person-period data with a per-ROW weights column.  wmode 'person': the weight is constant within an
+    individual; 'decreasing': it may drop from one person-period row to the next (a record stands for 4, then 2, then
+    1 individuals: sub-sampling during follow-up) and never rises, so that the k-th physical copy of every row belongs
+    to a k-th copy of the individual who is followed without gaps from time 1 (a weight that rises has no replicated
+    counterpart: the extra copies would enter late)"""
     rng = np.random.default_rng(seed)
     rows = []
     for i in range(int(rng.integers(40, 110))):
@@ -102,23 +114,40 @@ def make_survival(seed):
             if ev:
                 break
     df = pd.DataFrame(rows, columns=['id', 't', 'L1', 'L2', 'A', 'Y', 'w'])
+    if wmode == 'decreasing':       # drawn after the rows, so that both modes share the person-period table
+        w, ids = df['w'].values.copy(), df['id'].values
+        for j in range(1, len(df)):
+            if ids[j] == ids[j - 1]:
+                w[j] = w[j - 1] - (int(rng.integers(1, 4)) if rng.uniform() < 0.45 else 0)
+        df['w'] = np.maximum(w, 1)
+    elif wmode != 'person':
+        raise KeyError(wmode)
     return df.iloc[rng.permutation(len(df))].reset_index(drop=True)
 
 
 def replicate_persons(df, rng):
+    """every person-period row physically repeated `w` times; the k-th copy of a row belongs to the k-th copy of the
+    individual (fresh id).  The column w stays as an ordinary variable (see `replicate`)"""
     rep = df.loc[df.index.repeat(df['w'].values)]
     copy = rep.groupby(level=0).cumcount().values
-    rep = rep.drop(columns=['w']).reset_index(drop=True)
+    rep = rep.reset_index(drop=True)
     rep['id'] = rep['id'].values * 10 + copy
     return rep.iloc[rng.permutation(len(rep))].reset_index(drop=True)
 
 
-def specs(covs, spec):
-    """(treatment-model rhs, outcome / missingness-model rhs)"""
+def specs(covs, spec, wcov=False):
+    """(treatment-model rhs, outcome / missingness-model rhs); `wcov`: the variable that is also the weights column
+    (a design variable such as household size) is a covariate of every nuisance model"""
+    x = ' + w' if wcov else ''
     if spec == 'sat':
-        return gen.sat_cov(covs), gen.sat_out(covs)
+        return gen.sat_cov(covs) + x, gen.sat_out(covs) + x
     main = ' + '.join('C(%s)' % c for c in covs)
-    return main, 'A + ' + main
+    return main + x, 'A + ' + main + x
+
+
+def columns(covs, wcol, o, extra=()):
+    """columns handed to the estimator: the weights column when it is used as weights or as a covariate"""
+    return covs + ['A', 'Y'] + list(extra) + (['w'] if (wcol or o.get('wcov')) else [])
 
 
 def positions(df, labels):
@@ -142,8 +171,8 @@ def full(n, pos, arr):
 # each returns (estimates: dict, nuisance: dict of arrays aligned with the input rows, aux)
 def est_iptw(df, covs, wcol, o):
     from zepid.causal.ipw import IPTW
-    cols = covs + ['A', 'Y'] + ([wcol] if wcol else [])
-    tm, om = specs(covs, o['spec'])
+    cols = columns(covs, wcol, o)
+    tm, om = specs(covs, o['spec'], o.get('wcov'))
     ipt = IPTW(df[cols], treatment='A', outcome='Y', weights=wcol, standardize=o['tgt'])
     mod = o.get('msm') == 'modifier'     # stabilized weights with an effect modifier in numerator and MSM
     ipt.treatment_model(tm, model_numerator='C(%s)' % covs[0] if mod else '1', stabilized=o['stab'],
@@ -184,8 +213,8 @@ def est_iptw(df, covs, wcol, o):
 
 def est_stoch(df, covs, wcol, o):
     from zepid.causal.ipw import StochasticIPTW
-    cols = covs + ['A', 'Y'] + ([wcol] if wcol else [])
-    tm, _ = specs(covs, o['spec'])
+    cols = columns(covs, wcol, o)
+    tm, _ = specs(covs, o['spec'], o.get('wcov'))
     s = StochasticIPTW(df[cols], treatment='A', outcome='Y', weights=wcol)
     s.treatment_model(tm, print_results=False)
     if o.get('hist'):
@@ -205,8 +234,8 @@ def est_stoch(df, covs, wcol, o):
 
 def est_gformula(df, covs, wcol, o):
     from zepid.causal.gformula import TimeFixedGFormula
-    cols = covs + ['A', 'Y'] + ([wcol] if wcol else [])
-    _, om = specs(covs, o['spec'])
+    cols = columns(covs, wcol, o)
+    _, om = specs(covs, o['spec'], o.get('wcov'))
     g = TimeFixedGFormula(df[cols], exposure='A', outcome='Y', outcome_type=o['ytype'], standardize=o['tgt'],
                           weights=wcol)
     g.outcome_model(om, print_results=False)
@@ -237,10 +266,10 @@ def est_gformula(df, covs, wcol, o):
 
 def est_aiptw(df, covs, wcol, o):
     from zepid.causal.doublyrobust import AIPTW
-    cols = covs + ['A', 'Y'] + ([wcol] if wcol else [])
-    tm, om = specs(covs, o['spec'])
+    cols = columns(covs, wcol, o)
+    tm, om = specs(covs, o['spec'], o.get('wcov'))
     a = AIPTW(df[cols], exposure='A', outcome='Y', weights=wcol)
-    a.exposure_model(gen.sat_cov(covs), print_results=False)
+    a.exposure_model(gen.sat_cov(covs) + (' + w' if o.get('wcov') else ''), print_results=False)
     if o['miss'] == 'mm':
         a.missing_model(om, print_results=False)
     yt = o['ytype']
@@ -261,8 +290,8 @@ def est_aiptw(df, covs, wcol, o):
 
 def est_snm(df, covs, wcol, o):
     from zepid.causal.snm import GEstimationSNM
-    cols = covs + ['A', 'Y'] + ([wcol] if wcol else [])
-    tm, om = specs(covs, o['spec'])
+    cols = columns(covs, wcol, o)
+    tm, om = specs(covs, o['spec'], o.get('wcov'))
     s = GEstimationSNM(df[cols], exposure='A', outcome='Y', weights=wcol)
     s.exposure_model(tm, print_results=False)
     s.structural_nested_model(o['snm'])
@@ -287,8 +316,8 @@ def est_snm(df, covs, wcol, o):
 
 def est_gtransport(df, covs, wcol, o):
     from zepid.causal.generalize import GTransportFormula
-    cols = covs + ['A', 'Y', 'S'] + ([wcol] if wcol else [])
-    _, om = specs(covs, o['spec'])
+    cols = columns(covs, wcol, o, extra=['S'])
+    _, om = specs(covs, o['spec'], o.get('wcov'))
     e = GTransportFormula(df[cols], exposure='A', outcome='Y', selection='S', outcome_type=o['ytype'],
                           generalize=o['gen'], weights=wcol)
     e.outcome_model(om, print_results=False)
@@ -304,9 +333,9 @@ def est_gtransport(df, covs, wcol, o):
 
 def est_survival(df, wcol, o):
     from zepid.causal.gformula import SurvivalGFormula
-    cols = ['id', 't', 'L1', 'L2', 'A', 'Y'] + ([wcol] if wcol else [])
+    cols = ['id', 't', 'L1', 'L2', 'A', 'Y'] + (['w'] if (wcol or o.get('wcov')) else [])
     s = SurvivalGFormula(df[cols], idvar='id', exposure='A', outcome='Y', time='t', weights=wcol)
-    s.outcome_model(o['model'], print_results=False)
+    s.outcome_model(o['model'] + (' + w' if o.get('wcov') else ''), print_results=False)
     if o.get('hist'):
         s.fit('none' if o['treatment'] == 'all' else 'all')
     s.fit(o['treatment'])
@@ -520,6 +549,12 @@ def cells(which, ytype, missing, covs, rng, tier):
         h = [None, 'twice', 'respec'][int(rng.integers(0, 3))]
         if h:
             o['hist'] = h
+    # the variable that serves as weights is a design variable (household size, cluster size) and as such often also a
+    # covariate of the nuisance models: one cell in three has it in every model formula (the replicated frame then
+    # keeps the column as an ordinary variable).  Weighting must not alter the values the models are evaluated at.
+    for o in out:
+        if rng.integers(0, 3) == 0:
+            o['wcov'] = True
     return out
 
 
@@ -547,7 +582,7 @@ def one_dataset(chk, drv, rng, ytype, missing, tier, which_list):
             key = (seed, which, tuple(sorted((k, str(v)) for k, v in o.items())))
             chk.case(case, key if nontriv else None, sample=case if chk.evals % 41 == 0 else None)
             chk.count('%s/%s/%s' % (which, ytype, '/'.join('%s=%s' % (k, v) for k, v in sorted(o.items())
-                                                             if k in ('stab', 'tgt', 'miss', 'pm', 'plan', 'snm', 'gen', 'msm', 'hist', 'stoch', 'solver'))))
+                                                             if k in ('stab', 'tgt', 'miss', 'pm', 'plan', 'snm', 'gen', 'msm', 'hist', 'stoch', 'solver', 'wcov'))))
             compare(chk, drv, which, o, df, covs, rep, first, case)
 
 
@@ -559,27 +594,32 @@ def one_transport(chk, drv, rng, ytype, missing, tier):
            'kind': 'transport', 'strata': int(len(set(gen.strata_ids(df, covs).tolist())))}
     for o in cells('GTransportFormula', ytype, missing if df['Y'].isna().any() else None, covs, rng, tier):
         case = {'estimator': 'GTransportFormula', 'options': o, 'data': rec}
-        chk.case(case, (seed, 'GT', o['gen'], o['spec']) if df['w'].nunique() > 1 else None)
-        chk.count('GTransportFormula/%s/gen=%s%s' % (ytype, o['gen'], '/miss' if missing else ''))
+        chk.case(case, (seed, 'GT', o['gen'], o['spec'], bool(o.get('wcov'))) if df['w'].nunique() > 1 else None)
+        chk.count('GTransportFormula/%s/gen=%s%s%s' % (ytype, o['gen'], '/miss' if missing else '',
+                                                        '/wcov' if o.get('wcov') else ''))
         compare(chk, drv, 'GTransportFormula', o, df, covs, rep, first, case)
 
 
 SURV_MODELS = ['A + L1 + C(L2) + t', 'A*L1 + C(t)', 'A + L1 + t + I(t**2)']
 
 
-def one_survival(chk, drv, rng, tier, o=None, seed=None):
+def one_survival(chk, drv, rng, tier, o=None, seed=None, wmode=None):
     seed = int(rng.integers(0, 2 ** 31)) if seed is None else seed
-    df = make_survival(seed)
+    wmode = ['person', 'decreasing'][int(rng.integers(0, 2))] if wmode is None else wmode
+    df = make_survival(seed, wmode)
     rep = replicate_persons(df, np.random.default_rng(seed + 1))
     rec = {'persons': int(df['id'].nunique()), 'rows': int(len(df)), 'rows_replicated': int(len(rep)),
-           'data_seed': seed, 'kind': 'survival'}
+           'data_seed': seed, 'kind': 'survival', 'wmode': wmode,
+           'persons_with_changing_weight': int((df.groupby('id')['w'].nunique() > 1).sum())}
     opts = [o] if o is not None else [dict(treatment=t, model=str(rng.choice(SURV_MODELS)),
-                                           **({'hist': 'refit'} if rng.integers(0, 2) else {}))
+                                           **({'hist': 'refit'} if rng.integers(0, 2) else {}),
+                                           **({'wcov': True} if rng.integers(0, 3) == 0 else {}))
                                       for t in ('all', 'none', 'natural', "g['L1']==1")]
     for o in opts:
         case = {'estimator': 'SurvivalGFormula', 'options': o, 'data': rec}
-        chk.case(case, (seed, 'SGF', o['treatment'], o['model']))
-        chk.count('SurvivalGFormula/%s%s' % (o['treatment'], '/refit' if o.get('hist') else ''))
+        chk.case(case, (seed, 'SGF', wmode, o['treatment'], o['model'], bool(o.get('wcov'))))
+        chk.count('SurvivalGFormula/%s%s/w=%s%s' % (o['treatment'], '/refit' if o.get('hist') else '', wmode,
+                                                   '/wcov' if o.get('wcov') else ''))
         try:
             ew, nw, gf = est_survival(df, 'w', o)
             er, _, _ = est_survival(rep, None, o)
@@ -591,10 +631,12 @@ def one_survival(chk, drv, rng, tier, o=None, seed=None):
         chk.d(set(ew) == set(er) and all(close(ew[k], er[k], **DTOL) for k in ew),
               'SurvivalGFormula: person weights vs replicated persons give the same cumulative incidence', case)
         if drv is not None:
-            r, _ = drv.ask('c09surv', pid=enc_list(gf['id'].tolist(), str), t=enc_list(gf['t'].tolist(), str),
+            # row-level weights: the model whose copies keep the rows a copy still has (theorem survival_replicate_rows)
+            r, _ = drv.ask('c09surv' if wmode == 'person' else 'c09survrows', pid=enc_list(gf['id'].tolist(), str), t=enc_list(gf['t'].tolist(), str),
                            h=enc_list(nw['hazard'], lambda v: rq(float(v))), k=enc_list(gf['w'].astype(int).tolist(), str),
                            times=enc_list(sorted(int(k[1:]) for k in ew), str))
-            ok = r['status'] == 'ok' and all(close(float(Fraction(r['w_' + k])), ew[k], **KTOL) for k in ew)
+            ok = r['status'] == 'ok' and all(close(float(Fraction(r['w_' + k])), ew[k], **KTOL) for k in ew) and \
+                r.get('mono', '1') == '1'        # (hypothesis of survival_replicate_rows holds for the generated data)
             chk.k(ok, 'SurvivalGFormula: exact model on the predicted hazards = reported cumulative incidence', case)
             chk.k(r.get('same') == '1', 'SurvivalGFormula: model on (persons, weights) == model on replicated persons',
                   case)
@@ -621,7 +663,7 @@ def replay(rec):
         chk = common.Check('C09', 'quick', rec.get('seed', 0))
         with common.quiet():
             if data['kind'] == 'survival':
-                one_survival(chk, None, None, 'quick', o=o, seed=data['data_seed'])
+                one_survival(chk, None, None, 'quick', o=o, seed=data['data_seed'], wmode=data.get('wmode', 'person'))
             else:
                 mk = make_transport if data['kind'] == 'transport' else make_data
                 df, covs = mk(data['data_seed'], data['outcome'], data['missing'])
